@@ -17,7 +17,8 @@ def run(name, gen, cmd, trace, tier, seed, ctxs=CTXS, maxnodes=None, extra_cfg=N
     def genf(ctx):
         mname = "%s_%s" % (gen, ctx)
         mn = (maxnodes or {}).get(ctx) or u["MaxNodes"][ctx]
-        cfg = pipe_sat.gen_cfg(u, ctx, maxnodes=mn) + list((extra_cfg or {}).get(ctx, (extra_cfg or {}).get("*", [])))
+        base = pipe_sat.gen_cfg_sat(u, ctx, mn, pipe_sat.COMP_STRIDE[tier]["other"], seed) if gen == "Gen_Sat" else pipe_sat.gen_cfg(u, ctx, maxnodes=mn)
+        cfg = base + list((extra_cfg or {}).get(ctx, (extra_cfg or {}).get("*", [])))
         write_module(wd, mname, gen, pipe_sat.gen_defs(u) + list(extra_defs or []), cfg)
         out = os.path.join(wd, "cases_%s.ndjson" % ctx)
         r = tlc(wd, mname, mname + ".cfg", env={"OUT": out}, workers=1, heap=gen_heap, timeout=3000)
